@@ -37,6 +37,8 @@ def main():
         tier = sys.argv[sys.argv.index("--tier") + 1]
     skip_suite = "--skip-suite" in sys.argv
     name = f"{pid}-{src.name}"
+    if "--id" in sys.argv:
+        name = sys.argv[sys.argv.index("--id") + 1]
     wt = Path(f"/tmp/sv_{name}")
     if wt.exists():
         run(["git", "-C", "/repo", "worktree", "remove", "--force", str(wt)])
